@@ -504,3 +504,13 @@ def _register_shared_round9():
 
 
 # _register_shared_round9() is called by the driver after this module is fully imported (no import cycles)
+
+
+# the histogram "with patch k removed" is the sum of the per-patch histograms of the other patches: each of them is the weighted count
+# of the records of that patch (C10 unit on _redshift_histogram)
+def _register_shared_hist():
+    from . import C10 as _C10
+    unit(P, "_redshift_histogram", fuc=["yaw.redshifts:_redshift_histogram"], cases=[dict(closed=c, has_weights=w) for c in _C10.CLOSED for w in (False, True)])(_C10.u_hist)
+
+
+# _register_shared_hist() is called by the driver after this module is fully imported (no import cycles)
